@@ -162,11 +162,20 @@ Formatted(fs, k, t) == IF k > Len(fs) THEN t
 \*   set: ordered, unique        mset: ordered, duplicates kept        pq: priority_queue (pop order: descending)
 \*   arr3/sarr3: int[3] / std::array<int,3>, filled from index 0, refuse a 4th element
 \*   tup: std::tuple<int,string,int>, exactly three values     bits8: std::bitset<8>, values are bit positions
+\*   vecbool / dynbits: std::vector<bool> / container::DynamicBitset: values are bit positions, the destination grows as
+\*      needed (by how much is not specified: the projection is the ascending sequence of the positions that are set)
+\*   mapsi: std::map<std::string,int> (key-value container): values are pairs "key,value", projection: <<key, value>>
+\*      pairs in ascending key order
+\*   valint: value argument (DEST_VAR_VALUE) on an int variable: used like a flag, stores arg.setval in the variable of
+\*      argument arg.dst (several value arguments may share one variable)
 IntKinds == {"int", "optint", "level", "vecint", "setint", "listint", "dequeint", "arr3", "sarr3", "fwdint", "msetint",
-             "stackint", "queueint", "pqint", "bits8"}
+             "stackint", "queueint", "pqint", "bits8", "vecbool", "dynbits"}
 ContKinds == {"vecint", "vecstr", "setint", "listint", "dequeint", "arr3", "sarr3", "fwdint", "msetint",
-              "stackint", "queueint", "pqint", "tup", "bits8"}
+              "stackint", "queueint", "pqint", "tup", "bits8", "vecbool", "dynbits", "mapsi"}
 ArrKinds == {"arr3", "sarr3"}
+GrowBitKinds == {"vecbool", "dynbits"}
+\* second destination variable of a pair argument (DEST_PAIR): arg.pair = [on, val, init]
+PairOn(arg) == "pair" \in DOMAIN arg /\ arg.pair.on
 ElemIsInt(kind) == kind \in IntKinds
 IsContainer(kind) == kind \in ContKinds
 IsArr(kind) == kind \in ArrKinds
@@ -200,22 +209,60 @@ AddTo(kind, s, v) ==
      [] OTHER -> Append(s, v)
 SortedKind(kind) == kind \in {"setint", "msetint", "pqint"}
 
+\* key-value containers: pair text "key,value" (default pair format), content ordered by key (byte-wise)
+PairSep == 44
+RECURSIVE LexLt(_, _)
+LexLt(a, b) == IF Len(b) = 0 THEN FALSE
+               ELSE IF Len(a) = 0 THEN TRUE
+               ELSE IF a[1] < b[1] THEN TRUE
+               ELSE IF a[1] > b[1] THEN FALSE
+               ELSE LexLt(Tail2(a, 2), Tail2(b, 2))
+HasKey(c, key) == \E k \in 1..Len(c) : c[k][1] = key
+RECURSIVE InsertByKey(_, _)
+InsertByKey(c, kv) == IF Len(c) = 0 THEN <<kv>>
+                      ELSE IF LexLt(kv[1], c[1][1]) THEN <<kv>> \o c
+                      ELSE <<c[1]>> \o InsertByKey(Tail2(c, 2), kv)
+MapKey(tok) == SubSeq(tok, 1, PosOf(tok, PairSep) - 1)
+MapVal(tok) == Tail2(tok, PosOf(tok, PairSep) + 1)
+\* a pair needs the separator, a key and a value in front of / behind its first occurrence
+MapShapeOK(tok) == PosOf(tok, PairSep) > 1 /\ PosOf(tok, PairSep) < Len(tok)
+RemoveVal(s, v) == SelectSeq(s, LAMBDA x : x # v)
+
 \* fold the tokens of one value text into container content c; filled = elements stored so far in a
-\* fixed-size destination.  result [ok, c, filled]
+\* fixed-size destination.  result [ok, c, filled, un]; un: the documentation does not fix the outcome
+FR(ok, c, filled) == [ok |-> ok, c |-> c, filled |-> filled, un |-> FALSE]
+FU(c, filled) == [ok |-> FALSE, c |-> c, filled |-> filled, un |-> TRUE]
 RECURSIVE FoldTokens(_, _, _, _, _)
 FoldTokens(arg, toks, k, c, filled) ==
-   IF k > Len(toks) THEN [ok |-> TRUE, c |-> c, filled |-> filled]
+   IF k > Len(toks) THEN FR(TRUE, c, filled)
+   ELSE IF arg.kind = "mapsi" THEN
+        LET tok == toks[k] IN
+        \* checks see the whole pair text, formats are set per key/value: neither is modelled
+        IF Len(arg.formats) > 0 \/ Len(arg.checks) > 0 THEN FU(c, filled)
+        ELSE IF ~MapShapeOK(tok) THEN FR(FALSE, c, filled)
+        ELSE IF arg.uniq # "no" /\ HasKey(c, MapKey(tok)) THEN
+             (IF arg.uniq = "error" THEN FR(FALSE, c, filled)
+              ELSE IF ~IsIntText(MapVal(tok)) THEN FU(c, filled)      \* discarded pair with a value that is not a number: open
+              ELSE FoldTokens(arg, toks, k + 1, c, filled))
+        ELSE IF ~IsIntText(MapVal(tok)) THEN FR(FALSE, c, filled)
+        \* std::map: "attempts to insert an already existing key are simply ignored"
+        ELSE FoldTokens(arg, toks, k + 1, IF HasKey(c, MapKey(tok)) THEN c ELSE InsertByKey(c, <<MapKey(tok), IntOf(MapVal(tok))>>), filled)
    ELSE LET r == ConvElemAt(arg, toks[k], filled) IN
         IF arg.kind = "tup" THEN
-             (IF filled >= 3 \/ ~r.ok THEN [ok |-> FALSE, c |-> c, filled |-> filled]
+             (IF filled >= 3 \/ ~r.ok THEN FR(FALSE, c, filled)
               ELSE FoldTokens(arg, toks, k + 1, [c EXCEPT ![filled + 1] = r.v], filled + 1))
-        ELSE IF ~r.ok THEN [ok |-> FALSE, c |-> c, filled |-> filled]
+        ELSE IF ~r.ok THEN FR(FALSE, c, filled)
         ELSE IF arg.kind = "bits8" THEN
-             (IF r.v < 0 \/ r.v >= 8 THEN [ok |-> FALSE, c |-> c, filled |-> filled]
-              ELSE FoldTokens(arg, toks, k + 1, [c EXCEPT ![r.v + 1] = TRUE], filled))
-        ELSE IF IsArr(arg.kind) /\ filled >= 3 THEN [ok |-> FALSE, c |-> c, filled |-> filled]
+             (IF r.v < 0 \/ r.v >= 8 THEN FR(FALSE, c, filled)
+              ELSE FoldTokens(arg, toks, k + 1, [c EXCEPT ![r.v + 1] = ~arg.unset], filled))
+        ELSE IF arg.kind \in GrowBitKinds THEN
+             \* positions are unsigned; what a negative number means is not documented
+             (IF r.v < 0 THEN FU(c, filled)
+              ELSE FoldTokens(arg, toks, k + 1, IF arg.unset THEN RemoveVal(c, r.v)
+                                                ELSE IF Contains(c, r.v) THEN c ELSE InsertSorted(c, r.v), filled))
+        ELSE IF IsArr(arg.kind) /\ filled >= 3 THEN FR(FALSE, c, filled)
         ELSE IF arg.uniq # "no" /\ Contains(IF IsArr(arg.kind) THEN SubSeq(c, 1, filled) ELSE c, r.v) THEN
-             (IF arg.uniq = "error" THEN [ok |-> FALSE, c |-> c, filled |-> filled]
+             (IF arg.uniq = "error" THEN FR(FALSE, c, filled)
               ELSE FoldTokens(arg, toks, k + 1, c, filled))
         ELSE IF IsArr(arg.kind) THEN FoldTokens(arg, toks, k + 1, [c EXCEPT ![filled + 1] = r.v], filled + 1)
         ELSE FoldTokens(arg, toks, k + 1, AddTo(arg.kind, c, r.v), filled)
@@ -224,6 +271,7 @@ FoldTokens(arg, toks, k, c, filled) ==
 InitState(cfg) ==
    [i |-> 1, pos |-> 0, nval |-> FALSE, dashed |-> FALSE, last |-> 0,
     dest |-> [a \in 1..NArgs(cfg) |-> cfg.args[a].init],
+    aux |-> [a \in 1..NArgs(cfg) |-> IF PairOn(cfg.args[a]) THEN cfg.args[a].pair.init ELSE 0],
     has |-> [a \in 1..NArgs(cfg) |-> FALSE],
     cnt |-> [a \in 1..NArgs(cfg) |-> 0],
     cleared |-> [a \in 1..NArgs(cfg) |-> FALSE],
@@ -256,8 +304,11 @@ MaxFileDepth == 4
 RECURSIVE RunLines(_, _, _, _)
 RECURSIVE RunWords(_, _, _, _)
 
+\* value arguments that write the variable owned by argument d
+ValGroup(cfg, d) == {b \in 1..NArgs(cfg) : cfg.args[b].kind = "valint" /\ cfg.args[b].dst = d}
+
 \* store value text v (hasv = a value was given) in argument a; count = cardinality applies
-AssignTo(cfg, st, a, hasv, v, count) ==
+AssignTo0(cfg, st, a, hasv, v, count) ==
    LET arg == cfg.args[a]
        c1 == IF count /\ HasCard(arg) THEN st.cnt[a] + 1 ELSE st.cnt[a] IN
    IF arg.depr THEN Fail(st)
@@ -273,6 +324,15 @@ AssignTo(cfg, st, a, hasv, v, count) ==
              ELSE [inner EXCEPT !.i = st.i, !.pos = st.pos, !.nval = st.nval, !.dashed = st.dashed, !.depth = st.depth]
    ELSE IF arg.kind = "flag" THEN
         [st EXCEPT !.dest[a] = IF arg.unset THEN FALSE ELSE ~arg.init, !.has[a] = TRUE, !.cnt[a] = c1]
+   ELSE IF arg.kind = "valint" THEN
+        \* value argument: "it is checked that the original value of the destination variable is modified only once";
+        \* without the check the last argument that modifies the variable wins
+        LET G == ValGroup(cfg, arg.dst)
+            orig == cfg.args[arg.dst].init IN
+        IF arg.chkorig /\ st.dest[a] # orig THEN Fail(st)
+        \* the variable was already set, to a value that happens to equal the original one: not documented
+        ELSE IF arg.chkorig /\ (\E b \in G : st.has[b]) THEN Undef(st)
+        ELSE [st EXCEPT !.dest = [b \in 1..NArgs(cfg) |-> IF b \in G THEN arg.setval ELSE st.dest[b]], !.has[a] = TRUE, !.cnt[a] = c1]
    ELSE IF arg.kind = "level" THEN
         \* level counter: without value the level is incremented, with a value it is set; mixing both (or
         \* setting twice) is refused unless allowed.  filled[a]: 1 = incremented, 2 = set, 3 = both
@@ -303,9 +363,15 @@ AssignTo(cfg, st, a, hasv, v, count) ==
             sorted == IF arg.sort /\ ~SortedKind(arg.kind)
                         THEN (IF IsArr(arg.kind) THEN SortInts(SubSeq(r.c, 1, r.filled)) \o Tail2(r.c, r.filled + 1) ELSE SortInts(r.c))
                         ELSE r.c IN
-        IF HasCard(arg) /\ CardMax(EffCard(arg)) >= 0 /\ c2 > CardMax(EffCard(arg)) THEN Fail(st)
+        IF r.un THEN Undef(st)
+        ELSE IF HasCard(arg) /\ CardMax(EffCard(arg)) >= 0 /\ c2 > CardMax(EffCard(arg)) THEN Fail(st)
         ELSE IF ~r.ok THEN Fail(st)
         ELSE [st EXCEPT !.dest[a] = sorted, !.has[a] = TRUE, !.cnt[a] = c2, !.cleared[a] = TRUE, !.filled[a] = r.filled]
+
+\* pair arguments (DEST_PAIR): whenever the first variable was assigned, the second one gets its fixed value
+AssignTo(cfg, st, a, hasv, v, count) ==
+   LET s1 == AssignTo0(cfg, st, a, hasv, v, count) IN
+   IF s1.out = "run" /\ PairOn(cfg.args[a]) THEN [s1 EXCEPT !.aux[a] = cfg.args[a].pair.val] ELSE s1
 
 \* handler constraints that are evaluated when an argument is identified
 UsesOf(st, S) == {k \in 1..Len(st.hist) : st.hist[k] \in S}
